@@ -60,13 +60,16 @@ def gen_cases(tier, seed):
                             continue
                         yield C(w="hosvd_tol", fam=fam, shape=shape, dseed=dseed, mode=mode, cut=cut, side=side, sequential=seq,
                                 dimorder=[int(x) for x in rng.permutation(N)] if rng.random() < 0.5 else None,
-                                scale=[1.0, 1.0, 1e-3, 1e2][int(rng.integers(0, 4))])
+                                scale=[1.0, 1.0, 1e-3, 1e2, 1e-7, 1e5][int(rng.integers(0, 6))])
         for tol in (0.01, 0.1, 0.3, 0.5, 0.9, 0.999):
             yield C(w="hosvd_grid", fam=fam, shape=shape, dseed=dseed, tol=tol, sequential=bool(rng.integers(0, 2)),
                     dimorder=[int(x) for x in rng.permutation(N)] if rng.random() < 0.5 else None)
             # the bound is relative: it must hold for data of any norm (well below and well above 1)
             yield C(w="hosvd_grid", fam=fam, shape=shape, dseed=dseed, tol=tol, sequential=bool(rng.integers(0, 2)), dimorder=None,
-                    scale=[1e-3, 1e-2, 1e3][int(rng.integers(0, 3))])
+                    scale=[1e-3, 1e-2, 1e3, 1e-6, 1e-9][int(rng.integers(0, 5))])
+        # steeply decaying spectra with tolerances down to 1e-6: eigenvalues far below 1e-8 of the largest still decide the ranks
+        for tol in (1e-6, 1e-5, 1e-4, 1e-3):
+            yield C(w="hosvd_grid", fam="steep", shape=shape, dseed=dseed, tol=tol, sequential=bool(rng.integers(0, 2)), dimorder=None)
         # element type of the stored data: the bound and the structural contract do not depend on it
         for st in ("float32", "int32", "uint8", "int16"):
             for tol in (1e-6, 1e-4, 0.05, 0.4):
@@ -93,6 +96,15 @@ def gen_cases(tier, seed):
         for init in ("random", "nvecs"):
             yield C(w="tucker_als", fam="random", shape=shape, dseed=int(rng.integers(0, 2 ** 31)), ranks=ranks, init=init, scalar_rank=False,
                     dimorder=None, maxiters=int(rng.integers(1, 4)), printitn=0, gseed=int(rng.integers(0, 2 ** 31)), unbalanced=True)
+    # Tucker-ALS on data that is low rank up to a tiny perturbation (fit within 1e-4 ... 1e-9 of 1)
+    for i in range(12 if tier == "quick" else 80):
+        N = 3 if i % 3 else 4
+        shape = [int(s) for s in rng.integers(3, 6, size=N)]
+        ranks = [2, 2, 2, 1][:N] if i % 2 else [int(rng.integers(1, 3)) for _ in shape]
+        if not all(ranks[n] <= int(np.prod([ranks[k] for k in range(N) if k != n])) for n in range(N)):
+            ranks = [2] * N
+        yield C(w="tucker_als", fam="lowrank-noise", noise=[1e-5, 1e-6, 1e-4, 1e-8, 0.0, 1e-7][i % 6], shape=shape, dseed=int(rng.integers(0, 2 ** 31)), ranks=ranks,
+                init=["random", "nvecs"][i % 2], scalar_rank=False, dimorder=None, maxiters=int(rng.integers(2, 6)), printitn=0, gseed=int(rng.integers(0, 2 ** 31)))
     # Tucker-ALS
     nals = 60 if tier == "quick" else 600
     for i in range(nals):
@@ -129,15 +141,22 @@ def _data(case):
 def _data0(case):
     rng = np.random.default_rng(case["dseed"])
     shape = tuple(case["shape"])
-    if case["fam"] == "designed":
+    if case["fam"] in ("designed", "steep"):
         # orthonormal factors and a core with geometrically decaying, distinct entries: the mode-n Gram spectrum is well spread
         ranks = shape
         U = [np.linalg.qr(rng.standard_normal((s, s)))[0] for s in shape]
         core = rng.standard_normal(ranks)
         for n, s in enumerate(shape):
-            scale = (0.45 ** np.arange(s)).reshape([-1 if k == n else 1 for k in range(len(shape))])
+            scale = ((0.45 if case["fam"] == "designed" else 0.04) ** np.arange(s)).reshape([-1 if k == n else 1 for k in range(len(shape))])
             core = core * scale
         A = refops.ttm(core, U, list(range(len(shape))))
+    elif case["fam"] == "lowrank-noise":
+        # (almost) exactly of the requested multilinear rank: residuals between rounding level and 1e-4 of the data norm
+        ranks = case["ranks"]
+        U = [np.linalg.qr(rng.standard_normal((s, s)))[0][:, :r_] for s, r_ in zip(shape, ranks)]
+        core = rng.standard_normal(ranks)
+        A = refops.ttm(core, U, list(range(len(shape))))
+        A = A + float(case.get("noise", 1e-6)) * np.linalg.norm(A) / np.sqrt(A.size) * rng.standard_normal(shape)
     else:
         A = rng.standard_normal(shape)
     return np.asarray(A, dtype=float)
